@@ -149,7 +149,9 @@ def impl(case):
         for ixs in case['ixss']:
             y = x
             for idx in ixs:
-                y = y[_pyindex(idx)]
+                y = _catch(lambda: y[_pyindex(idx)])
+                if isinstance(y, dict):
+                    return {'out': y, 'pieces': [_obs(p) for p in ps], 'x': _obs(x), 'slicing_failed': _show(idx)}
             ps.append(y)
         r = _catch(lambda: concat(ps, axis=case['axis']))
         return {'out': r if isinstance(r, dict) else _obs(r), 'pieces': [_obs(p) for p in ps], 'x': _obs(x)}
@@ -355,27 +357,35 @@ def _judge_step(inp, idx, got):
     elif exp['keepE'] and exp['dropC']:
         key = K_EPOCH_KEPT
     what = f'x{inp["shape"]}[{_show(idx)}]'
+    # a recorded finding excuses only the deviation it describes: the counts (K_EPOCH_KEPT), the pairing of the
+    # selections (K_PAIRED); a wrong rate or time axis on such an expression is still a violation
     if 'exc' in got:
-        return (f'{what} raised {got["exc"]} ({got["msg"]}) for an index expression NumPy accepts', key)
+        return (f'{what} raised {got["exc"]} ({got["msg"]}) for an index expression NumPy accepts',
+                key if key == K_PAIRED else None)
     if 'scalar' in got:
-        return (f'{what} returned a scalar', key)
-    msgs = []
+        return (f'{what} returned a scalar', None)
+    core, sel = [], []
     if got['shape'] != exp['shape'] or got['vals'] != exp['vals']:
-        msgs.append(f'data shape {got["shape"]} instead of the per-axis selection of shape {exp["shape"]}'
-                    if got['shape'] != exp['shape'] else 'data differ from the per-axis selection')
+        sel.append(f'data shape {got["shape"]} instead of the per-axis selection of shape {exp["shape"]}'
+                   if got['shape'] != exp['shape'] else 'data differ from the per-axis selection')
     if got['ch'] != exp['ch']:
-        msgs.append(f'channel labels {got["ch"]} instead of {exp["ch"]}')
+        sel.append(f'channel labels {got["ch"]} instead of {exp["ch"]}')
     if got['md'] != exp['md']:
-        msgs.append(f'metadata {got["md"][1]} instead of {exp["md"][1]}')
+        sel.append(f'metadata {got["md"][1]} instead of {exp["md"][1]}')
     if Fraction(*got['fs']) != Fraction(*inp['fs']) / exp['step']:
-        msgs.append(f'fs {Fraction(*got["fs"])} instead of {Fraction(*inp["fs"])}/{exp["step"]}')
+        core.append(f'fs {Fraction(*got["fs"])} instead of {Fraction(*inp["fs"])}/{exp["step"]}')
     if exp['step'] == 1:
         # the time axis of the slice must be the slice of the time axis
         want_t = [inp['s0'] + i for i in exp['tsel']]
-        got_t = list(range(got['s0'], got['s0'] + got['shape'][-1])) if got['shape'] else []
+        got_t = list(range(got['s0'], got['s0'] + len(want_t)))
         if got_t != want_t:
-            msgs.append(f'time axis starts at sample {got["s0"]} (samples {got_t[:3]}..) instead of {want_t[:3]}.. = slice of the time axis')
-    msgs += _wf(got)
+            core.append(f'time axis starts at sample {got["s0"]} (samples {got_t[:3]}..) instead of {want_t[:3]}.. = slice of the time axis')
+    if not got.get('t_ok', True):
+        core.append('.t is not (s0 + arange(n_time)) / fs')
+    wfm = [m for m in _wf(got) if not m.startswith('.t is not')]
+    if core or (sel and key != K_PAIRED):
+        key = None
+    msgs = core + sel + wfm
     if msgs:
         return (f'{what}: ' + '; '.join(msgs), key)
     return None
@@ -419,6 +429,8 @@ def _judge(case, res):
         return _judge_cat(case['pieces'], case['axis'], res['out'], case.get('expect'))
     if k == 'slicecat':
         ps = res['pieces']
+        if 'slicing_failed' in res:
+            return (f'x{res["x"]["shape"]}[{res["slicing_failed"]}] raised {res["out"]["exc"]} ({res["out"]["msg"]})', None)
         if any(_wf(p) for p in ps):
             return None
         j = _judge_cat([dict(p, md=p['md']) for p in ps], case['axis'], res['out'], None)
@@ -504,13 +516,15 @@ def oracle(case, res):
 
 
 def key(case, res):
-    if res is None:
+    if res is None or 'raised' in res:
         return None
     j = _judge(case, res)
     return j[1] if j else None
 
 
 def nontrivial(case, res):
+    if 'raised' in res:
+        return True
     if case['k'] == 'get':
         s = res['steps']
         return 'exc' in s[-1] or 'scalar' in s[-1] or not (_same_ann(s[0], s[-1]) and s[0]['vals'] == s[-1]['vals'])
